@@ -37,11 +37,11 @@ def r1(c):
         j = repo.class_attr(m, cls, "join")
         if not j or not isinstance(j[2], ast.FunctionDef):
             raise AnchorError(f"{name}.join not resolvable")
-        fn = j[2]
-        if id(fn) in seen:
+        fn = repo.canon(j[0], j[2])
+        if id(j[2]) in seen:
             c.holds("C04.R1", repo.loc(m, cls), f"{name}({','.join(vns)})", f"inherits {j[1].name}.join", trivial=True)
             continue
-        seen.add(id(fn))
+        seen.add(id(j[2]))
         ok = False
         for call in calls_in(fn):
             if norm(call.func) == "self._blocks":
@@ -49,7 +49,7 @@ def r1(c):
                 ok = isinstance(v, ast.Constant) and v.value is False
             elif norm(call.func) == "self._indented_blocks":
                 ib = repo.class_attr(m, cls, "_indented_blocks")
-                for c2 in calls_in(ib[2]):
+                for c2 in calls_in(repo.canon(ib[0], ib[2])):
                     if norm(c2.func) == "self._blocks":
                         v = kwarg(c2, "is_patch", 1)
                         ok = isinstance(v, ast.Constant) and v.value is False
